@@ -1,0 +1,13 @@
+//go:build verif
+
+package interp
+
+// VerifHook, when set, is called at the synchronisation points of the
+// arithmetic lexer and parser (verification hook; build tag verif).
+var VerifHook func(id int)
+
+func verifPoint(id int) {
+	if h := VerifHook; h != nil {
+		h(id)
+	}
+}
